@@ -3,6 +3,7 @@
 # applies a textual mutation to /repo, runs the quick check, restores the file.
 ID=$1; F=$2; OLD=$3; NEW=$4
 cd /repo || exit 3
+cp "$F" /tmp/.mut_backup_$$ || exit 3
 python3 - "$F" "$OLD" "$NEW" <<'PY' || { echo "MUTATION DID NOT APPLY"; exit 3; }
 import sys
 f,old,new=sys.argv[1:4]
@@ -11,5 +12,5 @@ if old not in s: sys.exit(1)
 open(f,'w').write(s.replace(old,new,1))
 PY
 cd /verif && ./check $ID quick 2>&1 | grep -E "VIOLATION|KNOWN|OK |INCONCLUSIVE|identity" | head -8; echo "rc=${PIPESTATUS[0]}"
-git -C /repo checkout -- "$F"
+cp /tmp/.mut_backup_$$ "/repo/$F"; rm -f /tmp/.mut_backup_$$
 rm -rf /verif/replays/$ID
